@@ -1,4 +1,113 @@
-From V.C03 Require Import Model Spec Proofs.
+(* C03 — the property, clause by clause.  Only statements here; every proof is `exact lemma`.
+   `lib` = the Go library functions the model takes as parameters (strconv.ParseFloat,
+   strconv.FormatFloat, math.Pow, object rendering): every theorem holds for all of them. *)
+From Coq Require Import ZArith Bool String Floats.
+From V.C03 Require Import Model Spec Proofs ProofsPow.
+Open Scope Z_scope.
+
+(* the model's conversions are exactly the regenerated interface table *)
 Theorem table_matches_model : forall lib v i, implements (ty_of v) i = has_conv lib v i.
 Proof. exact table_matches_model_l. Qed.
 Print Assumptions table_matches_model.
+
+(* "A value is truthy in if, while, for, ?:, !, &&, || and (bool) alike": every one of the ten
+   modelled boolean contexts (if, else-if, while, do-while, for, ?:, !, &&, ||, (bool)) computes
+   the one reference truthiness, for every value (scalars, arrays, objects) *)
+Theorem truthy_one : forall lib c v, ctx_eval lib c v = CB (ref_truthy v).
+Proof. exact truthy_one_l. Qed.
+Print Assumptions truthy_one.
+
+(* "return the value and type the language defines": on the documented domain D (numeric pairs
+   for arithmetic/bitwise/shift, string pairs for + and ., same-kind and int/float pairs for
+   comparisons, all scalars for && ||) the operator nodes compute the reference result
+   (value AND type; a catchable error where the reference says so), for all 64-bit ints, all
+   binary64 floats incl. +-0, NaN, +-inf, all strings *)
+Theorem model_is_ref_on_D : forall lib o same l r,
+  inD o l r = true -> wf l = true -> wf r = true -> (same = true -> l = r) ->
+  binop_eval lib same o l r = ref_binop lib o l r.
+Proof. exact model_is_ref_on_D_l. Qed.
+Print Assumptions model_is_ref_on_D.
+
+Theorem unop_is_ref_on_D : forall lib o v, inD1 o v = true -> unop_eval lib o v = ref_unop o v.
+Proof. exact unop_is_ref_on_D_l. Qed.
+Print Assumptions unop_is_ref_on_D.
+
+(* "64-bit integers": every integer result of every operator on every operand pair is in
+   [-2^63, 2^63) *)
+Theorem int_results_in_range : forall lib same o l r z, wf l = true -> wf r = true ->
+  binop_eval lib same o l r = Val (VInt z) -> in_range z = true.
+Proof. exact int_results_in_range_l. Qed.
+Print Assumptions int_results_in_range.
+
+(* int ** int: exact when the mathematical power fits in 64 bits, float otherwise, never out of
+   fuel (the loop bound 64 always suffices) *)
+Theorem int_pow_exact : forall base exp, in_range base = true -> 0 <= exp ->
+  int_pow base exp = if pow_fits base exp then PowOk (zpow base exp) else PowOverflow.
+Proof. exact int_pow_correct. Qed.
+Theorem zpow_is_power : forall a b, 0 <= b -> zpow a b = a ^ b.
+Proof. exact zpow_is_pow. Qed.
+Print Assumptions int_pow_exact.
+
+(* "'/' always float" — on every operand pair, not only numbers *)
+Theorem quo_is_float : forall lib l r v, quo lib l r = Val v -> exists f, v = VFloat f.
+Proof. exact quo_is_float_l. Qed.
+Print Assumptions quo_is_float.
+
+(* "'%' and '/' by zero raise a catchable error" *)
+Theorem div_zero_throws : forall lib l r, numeric l = true -> numeric r = true ->
+  (PrimFloat.eqb (tof r) 0%float = true -> quo lib l r = Throw) /\
+  (toi r = 0 -> rem l r = Throw).
+Proof. exact div_zero_throws_l. Qed.
+Print Assumptions div_zero_throws.
+
+(* "==/!= and ===/!== are complements" — on every operand pair (arrays and objects included),
+   and both always yield a bool *)
+Theorem eq_ne_compl : forall lib same l r, exists b,
+  eq lib same l r = Val (VBool b) /\ ne lib same l r = Val (VBool (negb b)).
+Proof. exact eq_ne_compl_l. Qed.
+Theorem seq_sne_compl : forall l r, exists b, seq l r = Val (VBool b) /\ sne l r = Val (VBool (negb b)).
+Proof. exact seq_sne_compl_l. Qed.
+Theorem relational_total : forall lib o l r, exists b, rel lib o l r = Val (VBool b).
+Proof. exact rel_bool_l. Qed.
+Print Assumptions eq_ne_compl.
+Print Assumptions seq_sne_compl.
+
+(* "== is symmetric".  Full statement:
+     forall lib same l r, (same = true -> l = r) -> eq lib same l r = eq lib same r l
+   is FALSE of the current code (eq_sym_refuted: "1" == 1 but not 1 == "1").  Proved on the
+   complement of the 15 recorded operand-kind pairs (Spec.eq_sym_known; each is a known finding
+   law:eq-sym:<k1>~<k2>): all same-kind pairs, int~float, and the mixed pairs with arrays/objects
+   that do not involve a bool or a string. *)
+Theorem eq_sym_partial : forall lib same l r,
+  eq_sym_known (ty_of l) (ty_of r) = false -> (same = true -> l = r) ->
+  eq lib same l r = eq lib same r l.
+Proof. exact eq_sym_partial_l. Qed.
+Theorem eq_sym_refuted : forall lib,
+  eq lib false (VStr "1") (VInt 1) = Val (VBool true) /\ eq lib false (VInt 1) (VStr "1") = Val (VBool false).
+Proof. exact eq_sym_refuted_l. Qed.
+Print Assumptions eq_sym_partial.
+
+(* "<=> agrees with < and >".  Full statement (all pairs) is FALSE of the current code
+   (cmp_lt_gt_refuted: null <=> 0 is -1 but null < 0 is false).  Proved on the complement of the
+   21 recorded ordered kind pairs (Spec.cmp_known: null with a non-null operand, float-string,
+   string with a non-string; known findings law:cmp-lt-gt:<k1>-<k2>). *)
+Theorem cmp_lt_gt_partial : forall lib l r,
+  cmp_known (ty_of l) (ty_of r) = false ->
+  law_cmp (cmp l r) (rel lib RLt l r) (rel lib RGt l r) = true.
+Proof. exact cmp_lt_gt_partial_l. Qed.
+Theorem cmp_lt_gt_refuted : forall lib,
+  cmp VNull (VInt 0) = Val (VInt (-1)) /\ rel lib RLt VNull (VInt 0) = Val (VBool false).
+Proof. exact cmp_lt_gt_refuted_l. Qed.
+Print Assumptions cmp_lt_gt_partial.
+
+(* "No operand combination crashes the interpreter: the outcome is a value or a catchable
+   error" — every binary operator on every operand pair (all kinds incl. arrays, objects, class
+   instances; same-object or not), every unary operator on every operand: never Crash (Go
+   panic), never NoValue (nil result), never OutOfFuel *)
+Theorem no_crash_any_pair : forall lib same o l r, wf l = true -> wf r = true ->
+  acceptable (binop_eval lib same o l r) = true.
+Proof. exact acceptable_any_pair_l. Qed.
+Theorem no_crash_unary : forall lib o v, acceptable (unop_eval lib o v) = true.
+Proof. exact acceptable_unop_l. Qed.
+Print Assumptions no_crash_any_pair.
+Print Assumptions no_crash_unary.
